@@ -46,6 +46,7 @@ inductive Op where
   | bmap (s : Nat)
   | bremap (b : Nat)
   | bunmap (b : Nat)
+  | boptimize (b : Nat)                   -- Bitmap.Optimize(): re-encodes containers in place, drops empty ones
   -- rows
   | rnew (cols : List Nat)
   | rset (x col : Nat)
@@ -235,12 +236,19 @@ def World.doImport (w : World) (f : Frag) (clear : Bool) (vals : List Nat) : Wor
   { w with h := w.h.applyPrims plan,
            frag := some { f with cache := f.cache.filter (fun e => !rows.contains e.1) } }
 
+/-- `Bitmap.Optimize`: every container is re-encoded (array / bitmap / run) where that is smaller —
+in place when it is not frozen, as a new container otherwise; the set it holds does not change, so
+in this model (a container is a set) only the dropping of empty containers is visible. -/
+def World.optimize (w : World) (b : Nat) : World :=
+  let empties := (w.h.bms b).filter (fun kc => w.h.vals kc.2 == [])
+  { w with h := w.h.applyPrims (empties.map (fun kc => Prim.del b kc.1)) }
+
 /-- Containers read by an operation: reading one whose region is unmapped kills the process. -/
 def World.reads (w : World) : Op → List Nat
   | .bnew _ | .rnew _ | .fopen _ | .fclose | .freopen => []
   | .badd b v => (match w.bs[b]? with | some i => BOp.reads w.h (.add i v) | none => [])
   | .bremove b v => (match w.bs[b]? with | some i => BOp.reads w.h (.remove i v) | none => [])
-  | .bclone s | .bfreeze s | .boffset s _ _ _ | .bmap s | .bremap s | .bunmap s =>
+  | .bclone s | .bfreeze s | .boffset s _ _ _ | .bmap s | .bremap s | .bunmap s | .boptimize s =>
       (match w.bs[s]? with | some i => (w.h.bms i).map (·.2) | none => [])
   | .bbin _ a b =>
       (match w.bs[a]?, w.bs[b]? with
@@ -277,6 +285,7 @@ def World.step (w : World) (op : Op) : Option World :=
   | .bmap s => (w.bs[s]?).map (fun i => { w.runB (.mapFrom i) with bs := w.bs ++ [w.h.nB], files := w.bs.length :: w.files })
   | .bremap b => if w.files.contains b then (w.bs[b]?).map (fun i => w.runB (.remap i)) else none
   | .bunmap b => if w.files.contains b then (w.bs[b]?).map (fun i => w.runB (.unmap i)) else none
+  | .boptimize b => (w.bs[b]?).map (fun i => w.optimize i)
   | .rnew cols =>
       let r := w.newRowSegs (vofList (cols.map (· / shardWidth))) cols
       some { r.1 with rows := r.1.rows ++ [r.2] }
